@@ -590,3 +590,118 @@ Lemma fft_shape_reports dx du z wl os :
 Proof. reflexivity. Qed.
 Lemma scratch_shape_is_grid wls dx du z os : scratch_shape wls dx du z os = fft_grid dx du z (qmaxl wls) os.
 Proof. reflexivity. Qed.
+
+(* ------------------------------------------------------------------ scratch_shape for a list of wavelengths *)
+(* np.round: within half a unit of its argument (in integers: |2n - 2dr| <= d for q = n/d) *)
+Lemma rhe_bounds q : let n := Qnum (this q) in let d := Zpos (Qden (this q)) in let r := round_half_even q in
+  d * (2 * r - 1) <= 2 * n <= d * (2 * r + 1).
+Proof.
+  cbv zeta. unfold round_half_even.
+  set (n := Qnum (this q)). set (d := Zpos (Qden (this q))). assert (Hd : 0 < d) by (subst d; lia).
+  pose proof (Z.div_mod n d ltac:(lia)) as E. pose proof (Z.mod_pos_bound n d Hd) as B.
+  set (f := n / d) in *. set (m := n mod d) in *. clearbody f m n d.
+  destruct (2 * m <? d) eqn:E1; [nia|]. destruct (d <? 2 * m) eqn:E2; [nia|].
+  destruct (Z.even f); nia.
+Qed.
+
+Lemma rhe_mono q1 q2 : (q1 <= q2)%Qc -> round_half_even q1 <= round_half_even q2.
+Proof.
+  intros H. destruct (Qc_eq_dec q1 q2) as [->|Hne]; [lia|].
+  assert (Hlt : (q1 < q2)%Qc) by (apply Qcle_lt_or_eq in H; destruct H; [assumption|contradiction]).
+  unfold Qclt, Qlt in Hlt.
+  pose proof (rhe_bounds q1) as B1. pose proof (rhe_bounds q2) as B2. cbv zeta in B1, B2.
+  set (n1 := Qnum (this q1)) in *. set (d1 := Zpos (Qden (this q1))) in *.
+  set (n2 := Qnum (this q2)) in *. set (d2 := Zpos (Qden (this q2))) in *.
+  assert (Hd1 : 0 < d1) by (subst d1; lia). assert (Hd2 : 0 < d2) by (subst d2; lia).
+  set (r1 := round_half_even q1) in *. set (r2 := round_half_even q2) in *.
+  clearbody r1 r2 n1 n2 d1 d2.
+  destruct (Z_le_gt_dec r1 r2) as [|Hgt]; [assumption|exfalso].
+  assert (A : d1 * d2 * (2 * r2 + 1) <= d1 * d2 * (2 * r1 - 1)) by nia.
+  assert (B : 2 * n1 * d2 >= d1 * d2 * (2 * r1 - 1)) by nia.
+  assert (C : 2 * n2 * d1 <= d1 * d2 * (2 * r2 + 1)) by nia.
+  nia.
+Qed.
+
+(* ---- order facts on Qc ---- *)
+Lemma zq_pos n : 0 < n -> (0 < zq n)%Qc.
+Proof. intros H. unfold Qclt, zq. cbn [this Q2Qc]. rewrite !Qred_correct. unfold Qlt, inject_Z. cbn. lia. Qed.
+Lemma qc_pos_neq0 (a : Qc) : (0 < a)%Qc -> a <> 0%Qc.
+Proof. intros H E. rewrite E in H. exact (Qclt_not_eq _ _ H eq_refl). Qed.
+Lemma qleb_true a b : qleb a b = true -> (a <= b)%Qc.
+Proof. unfold qleb, Qcle. apply Qle_bool_iff. Qed.
+Lemma qleb_false a b : qleb a b = false -> (b <= a)%Qc.
+Proof. unfold qleb, Qcle. intros H. apply Qlt_le_weak. apply Qnot_le_lt. intro L.
+  apply Qle_bool_iff in L. congruence. Qed.
+Lemma qmax_ge_l a b : (a <= qmax a b)%Qc.
+Proof. unfold qmax. destruct (qleb a b) eqn:E; [now apply qleb_true|apply Qcle_refl]. Qed.
+Lemma qmax_ge_r a b : (b <= qmax a b)%Qc.
+Proof. unfold qmax. destruct (qleb a b) eqn:E; [apply Qcle_refl|now apply qleb_false]. Qed.
+Lemma fold_qmax_ge r : forall x, (x <= fold_left qmax r x)%Qc /\ forall y, In y r -> (y <= fold_left qmax r x)%Qc.
+Proof.
+  induction r as [|a r IH]; intros x; cbn [fold_left].
+  - split; [apply Qcle_refl|intros y []].
+  - destruct (IH (qmax x a)) as [I1 I2]. split.
+    + eapply Qcle_trans; [apply qmax_ge_l|exact I1].
+    + intros y [<-|Hy]; [eapply Qcle_trans; [apply qmax_ge_r|exact I1]|now apply I2].
+Qed.
+(* np.max(wavelengths) bounds every listed wavelength *)
+Lemma qmaxl_ge l y : In y l -> (y <= qmaxl l)%Qc.
+Proof. destruct l as [|x r]; [intros []|]. cbn [qmaxl]. destruct (fold_qmax_ge r x) as [I1 I2].
+  intros [<-|Hy]; [exact I1|now apply I2]. Qed.
+
+(* 1/alpha grows with the wavelength *)
+Lemma inv_alpha_mono (c z o l1 l2 : Qc) : (0 < c)%Qc -> (0 < z)%Qc -> (0 < o)%Qc -> (0 < l1)%Qc -> (l1 <= l2)%Qc ->
+  (/ (c / (z * l1 * o)) <= / (c / (z * l2 * o)))%Qc.
+Proof.
+  intros Hc Hz Ho H1 H12.
+  assert (H2 : (0 < l2)%Qc) by (eapply Qclt_le_trans; eassumption).
+  pose proof (qc_pos_neq0 _ Hc). pose proof (qc_pos_neq0 _ Hz). pose proof (qc_pos_neq0 _ Ho).
+  pose proof (qc_pos_neq0 _ H1). pose proof (qc_pos_neq0 _ H2).
+  apply (Qcmult_lt_0_le_reg_r _ _ c Hc).
+  replace (/ (c / (z * l1 * o)) * c)%Qc with (l1 * z * o)%Qc by (field; auto).
+  replace (/ (c / (z * l2 * o)) * c)%Qc with (l2 * z * o)%Qc by (field; auto).
+  apply Qcmult_le_compat_r; [apply Qcmult_le_compat_r; [assumption|]|]; now apply Qclt_le_weak.
+Qed.
+
+(* the advertised scratch shape for a list of wavelengths covers the grid of each of them *)
+Theorem scratch_shape_covers (wls : list Qc) dx du z os lam :
+  In lam wls -> (0 < lam)%Qc -> (0 < fst dx * fst du)%Qc -> (0 < snd dx * snd du)%Qc -> (0 < z)%Qc -> 0 < os ->
+  fst (fft_grid dx du z lam os) <= fst (scratch_shape wls dx du z os) /\
+  snd (fft_grid dx du z lam os) <= snd (scratch_shape wls dx du z os).
+Proof.
+  intros Hin Hl H0 H1 Hz Hos. rewrite scratch_shape_is_grid. unfold fft_grid, dft_alpha. cbn [fst snd].
+  pose proof (qmaxl_ge wls lam Hin) as Hle. pose proof (zq_pos os Hos) as Ho.
+  split; apply rhe_mono; apply inv_alpha_mono; assumption.
+Qed.
+
+(* hence a buffer of exactly scratch_shape(wavelengths, ...) is accepted at every listed wavelength *)
+Theorem scratch_list_accepted (S : Scalar) (Sring : is_ring S) (Skernel : kernel_laws S) (Speriod : periodic S)
+        (sq : Qc -> S) (w : wavefront S) du shape os (buf : arr S) pt (wls : list Qc) :
+  let N := fft_grid (wpix w) du (wz w) (wlam w) os in
+  In (wlam w) wls -> (0 < wlam w)%Qc -> (0 < fst (wpix w) * fst du)%Qc -> (0 < snd (wpix w) * snd du)%Qc -> (0 < wz w)%Qc ->
+  nr buf = fst (scratch_shape wls (wpix w) du (wz w) os) -> nc buf = snd (scratch_shape wls (wpix w) du (wz w) os) ->
+  0 < fst N -> 0 < snd N -> 0 < os -> has_tilt w = false -> propagate_ptype (wpt w) = Ok pt ->
+  (forall f, In f (wdata w) -> fgood S f) -> accepted_shape (fst N) (snd N) shape os ->
+  exists out sc, propagate_fft sq w du shape os (Some buf) = Ok (out, sc).
+Proof.
+  intros N Hin Hl H0 H1 Hz B0 B1 N0 N1 Hos Ht Hpt Hg Hsh. rewrite propagate_fft_unfold. fold N.
+  destruct (scratch_shape_covers wls (wpix w) du (wz w) os (wlam w) Hin Hl H0 H1 Hz Hos) as [C0 C1]. fold N in C0, C1.
+  destruct (propagate_fft_samples S Sring Skernel Speriod sq (fst N) (snd N) w du shape os (Some buf) pt N0 N1 Hos Ht Hpt Hg Hsh)
+    as (out & sc & E & _); [cbn [scratch_ok]; lia|].
+  now exists out, sc.
+Qed.
+
+(* ------------------------------------------------------------------ sensitivity: the shift order before fix f003478 *)
+From LV Require Import Lib.GRing.
+
+(* the order of shifts before fix f003478: ifftshift(fft2(fftshift x)) *)
+Definition fft2c_old {S : Scalar} (sq : Qc -> S) (x : arr S) : arr S :=
+  force (ifftshift (fft2_ortho sq (force (fftshift x)))).
+
+(* it is not the centred transform on an odd grid: 1 x 3 delta at index 0, group ring of the cube roots of unity *)
+Theorem old_shift_order_odd_refuted :
+  let sq : Qc -> GRS 3 := fun _ => @k1 (GRS 3) in
+  let x : arr (GRS 3) := mkArr 1 3 (fun _ j => if j =? 0 then @k1 (GRS 3) else @k0 (GRS 3)) in
+  get (fft2c_old sq x) 0 1 <> get (dft2 sq x (/ zq 1)%Qc (/ zq 3)%Qc 1 3 0 0 0 0 true) 0 1
+  /\ get (fft2c sq x) 0 1 = get (dft2 sq x (/ zq 1)%Qc (/ zq 3)%Qc 1 3 0 0 0 0 true) 0 1.
+Proof. cbv zeta. split; [vm_compute; discriminate|vm_compute; reflexivity]. Qed.
